@@ -113,6 +113,13 @@ pub enum GExpr {
     TimeToSlot(Box<GExpr>),
     /// index of the output block
     MinUtxo(usize),
+    // ---- nodes used only by the semantic mutator (C13): not in the must-agree fragment
+    /// a single token printed verbatim
+    Raw(String),
+    /// name(args..) with any arity
+    Call(String, Vec<GExpr>),
+    /// constructor written with explicit names: head tokens, (field name, value), spread
+    RawRecord { head: Vec<String>, fields: Vec<(String, GExpr)>, spread: Option<Box<GExpr>> },
 }
 
 #[derive(Clone, Debug, Default)]
@@ -158,6 +165,8 @@ pub enum GDirective {
     NativeWitness { script: Vec<u8> },
     TreasuryDonation { coin: GExpr },
     VoteDelegation { drep: GExpr, stake: GExpr },
+    /// withdrawal with any subset of its fields (C13)
+    WithdrawalPartial { from: Option<GExpr>, amount: Option<GExpr>, redeemer: Option<GExpr> },
 }
 
 #[derive(Clone, Copy, Debug, PartialEq, Eq)]
@@ -427,6 +436,35 @@ impl<'p> Printer<'p> {
                 self.expr(tx, a);
                 self.t(")");
             }
+            GExpr::Raw(tok) => self.t(tok),
+            GExpr::Call(name, args) => {
+                self.t(name);
+                self.t("(");
+                for (i, a) in args.iter().enumerate() {
+                    self.expr(tx, a);
+                    if i + 1 < args.len() {
+                        self.t(",");
+                    }
+                }
+                self.t(")");
+            }
+            GExpr::RawRecord { head, fields, spread } => {
+                for h in head {
+                    self.t(h);
+                }
+                self.t("{");
+                for (n, v) in fields {
+                    self.t(n);
+                    self.t(":");
+                    self.expr(tx, v);
+                    self.t(",");
+                }
+                if let Some(sp) = spread {
+                    self.t("...");
+                    self.expr(tx, sp);
+                }
+                self.t("}");
+            }
             GExpr::MinUtxo(o) => {
                 self.t("min_utxo");
                 self.t("(");
@@ -578,6 +616,20 @@ impl<'p> Printer<'p> {
                 self.t("treasury_donation");
                 self.t("{");
                 self.field(tx, "coin", coin);
+                self.t("}");
+            }
+            GDirective::WithdrawalPartial { from, amount, redeemer } => {
+                self.t("withdrawal");
+                self.t("{");
+                if let Some(e) = from {
+                    self.field(tx, "from", e);
+                }
+                if let Some(e) = amount {
+                    self.field(tx, "amount", e);
+                }
+                if let Some(e) = redeemer {
+                    self.field(tx, "redeemer", e);
+                }
                 self.t("}");
             }
             GDirective::VoteDelegation { drep, stake } => {
